@@ -1801,6 +1801,69 @@ package graphql
 //@   loop 1 ensures usage == nil || usage.Node == nil ==> calls("reportError") == atloop(1, calls("reportError"))
 //@   at call reportError: assert arg0 == context && len(arg2) == 2 && typeis(arg2[0], "*ast.Variable") && as(arg2[0], "*ast.Variable") == usage.Node && typeis(arg2[1], "*ast.OperationDefinition") && as(arg2[1], "*ast.OperationDefinition") == operation
 
+// NoUnusedVariables: the definitions of the operation being visited are collected (reset at every operation);
+// on leaving it the names used anywhere in it (also in spread fragments) are marked, and every collected
+// definition whose name is not marked is reported, located at the definition.
+//@ func UnusedVariableMessage
+//@   trusted
+//@   assigns nothing
+//@ func NoUnusedVariablesRule$1
+//@   props C02
+//@   nosafety
+//@   ensures len(variableDefs) == 0 && result0 == visitor.ActionNoChange
+//@ func NoUnusedVariablesRule$3
+//@   props C02
+//@   nosafety
+//@   ensures typeis(p.Node, "*ast.VariableDefinition") && as(p.Node, "*ast.VariableDefinition") != nil ==> len(variableDefs) == old(len(variableDefs)) + 1 && variableDefs[len(variableDefs)-1] == as(p.Node, "*ast.VariableDefinition")
+//@   ensures forall i in 0..old(len(variableDefs)): variableDefs[i] == old(variableDefs[i])
+//@   ensures result0 == visitor.ActionNoChange
+//@ func NoUnusedVariablesRule$2
+//@   props C02 C18
+//@   nosafety
+//@   ensures !typeis(p.Node, "*ast.OperationDefinition") ==> calls("reportError") == 0 && calls("RecursiveVariableUsages") == 0
+//@   at call RecursiveVariableUsages: assert arg1 == operation
+//@   loop 1 over lastresult("RecursiveVariableUsages")
+//@   loop 1 invariant fresh(variableNameUsed)
+//@   loop 1 ensures usage != nil && usage.Node != nil && usage.Node.Name != nil && len(usage.Node.Name.Value) > 0 ==> has(variableNameUsed, usage.Node.Name.Value) && variableNameUsed[usage.Node.Name.Value]
+//@   loop 1 ensures calls("reportError") == atloop(1, calls("reportError"))
+//@   loop 2 over variableDefs
+//@   loop 2 ensures variableDef != nil && variableDef.Variable != nil && variableDef.Variable.Name != nil && !(has(variableNameUsed, variableDef.Variable.Name.Value) && variableNameUsed[variableDef.Variable.Name.Value]) ==> calls("reportError") == atloop(2, calls("reportError")) + 1
+//@   loop 2 ensures variableDef != nil && variableDef.Variable != nil && variableDef.Variable.Name != nil && has(variableNameUsed, variableDef.Variable.Name.Value) && variableNameUsed[variableDef.Variable.Name.Value] ==> calls("reportError") == atloop(2, calls("reportError"))
+//@   at call reportError: assert arg0 == context && len(arg2) == 1 && typeis(arg2[0], "*ast.VariableDefinition") && as(arg2[0], "*ast.VariableDefinition") == variableDef
+
+// NoUnusedFragments: operations and fragment definitions are collected in document order; on leaving the
+// document the fragments reachable from any operation are marked by name and every collected definition that
+// is not marked is reported, located at the definition.
+//@ func ValidationContext.RecursivelyReferencedFragments
+//@   trusted
+//@   assigns nothing
+//@ func NoUnusedFragmentsRule$1
+//@   props C02
+//@   nosafety
+//@   ensures typeis(p.Node, "*ast.OperationDefinition") && as(p.Node, "*ast.OperationDefinition") != nil ==> len(operationDefs) == old(len(operationDefs)) + 1 && operationDefs[len(operationDefs)-1] == as(p.Node, "*ast.OperationDefinition")
+//@   ensures forall i in 0..old(len(operationDefs)): operationDefs[i] == old(operationDefs[i])
+//@   ensures result0 == visitor.ActionSkip
+//@ func NoUnusedFragmentsRule$2
+//@   props C02
+//@   nosafety
+//@   ensures typeis(p.Node, "*ast.FragmentDefinition") && as(p.Node, "*ast.FragmentDefinition") != nil ==> len(fragmentDefs) == old(len(fragmentDefs)) + 1 && fragmentDefs[len(fragmentDefs)-1] == as(p.Node, "*ast.FragmentDefinition")
+//@   ensures forall i in 0..old(len(fragmentDefs)): fragmentDefs[i] == old(fragmentDefs[i])
+//@   ensures result0 == visitor.ActionSkip
+//@ func NoUnusedFragmentsRule$3
+//@   props C02 C18
+//@   nosafety
+//@   loop 1 over operationDefs
+//@   loop 1 invariant fresh(fragmentNameUsed)
+//@   at call RecursivelyReferencedFragments: assert arg1 == operation
+//@   loop 1 ensures calls("RecursivelyReferencedFragments") == atloop(1, calls("RecursivelyReferencedFragments")) + 1 && calls("reportError") == atloop(1, calls("reportError"))
+//@   loop 2 over lastresult("RecursivelyReferencedFragments")
+//@   loop 2 invariant fresh(fragmentNameUsed)
+//@   loop 2 ensures fragment.Name != nil ==> has(fragmentNameUsed, fragment.Name.Value) && fragmentNameUsed[fragment.Name.Value]
+//@   loop 3 over fragmentDefs
+//@   loop 3 ensures def.Name != nil && !(has(fragmentNameUsed, def.Name.Value) && fragmentNameUsed[def.Name.Value]) ==> calls("reportError") == atloop(3, calls("reportError")) + 1
+//@   loop 3 ensures def.Name != nil && has(fragmentNameUsed, def.Name.Value) && fragmentNameUsed[def.Name.Value] ==> calls("reportError") == atloop(3, calls("reportError"))
+//@   at call reportError: assert arg0 == context && len(arg2) == 1 && typeis(arg2[0], "*ast.FragmentDefinition") && as(arg2[0], "*ast.FragmentDefinition") == def
+
 // VariablesAreInputTypes: a variable definition is reported exactly when its type is known and not an input
 // type; the error is located at the type reference.
 //@ func VariablesAreInputTypesRule$1
